@@ -71,20 +71,22 @@ def runTcolor (env : Env) (payload : String) : String :=
 
 /-! reference side -/
 
-/-- which single repair of the code makes it agree with the reference on this call (stable finding classes) -/
-def classOf (prog : Bytes) (ps : List Value) (sv : Vars) (want : Bytes) : String :=
-  if (tparmV { nesting := true } prog ps sv).1 == want then "nested-cond"
-  else if (tparmV { logAO := true } prog ps sv).1 == want then "logical-and-or"
-  else if (tparmV { flagNoColon := true } prog ps sv).1 == want then "fmt-flag-no-colon"
-  else if (tparmV repaired prog ps sv).1 == want then "several-known"
-  else "mismatch"
+/-- the model variants the judge threads along a line (each with its own static variables):
+pinned, and pinned + one repair, and all repairs -/
+def variants : List (String × Variant) :=
+  [("pinned", pinned), ("nested-cond", { nesting := true }), ("logical-and-or", { logAO := true }),
+   ("fmt-flag-no-colon", { flagNoColon := true }), ("several-known", repaired)]
 
 open Spec.Terminfo5 in
+/-- Reference verdict for a line of calls.  Stable finding classes: if the implementation behaves exactly like the
+pinned model (whose deviations from the reference are the known defects), the class names the single repair under
+which the model, run from the first call of the line, agrees with the reference on the failing call; any other
+deviation is a plain `mismatch`. -/
 def judgeTparm (payload : String) : String :=
   let (cs, obs) := splitArrow payload
   let calls := parseCalls cs
   let outs := words obs
-  let rec go (k : Nat) (calls : List (Bytes × List Value)) (outs : List String) (sv : Vars) : String :=
+  let rec go (k : Nat) (calls : List (Bytes × List Value)) (outs : List String) (sv : Vars) (svs : List Vars) : String :=
     match calls, outs with
     | c :: cr, o :: or =>
       match parse c.1 with
@@ -93,10 +95,20 @@ def judgeTparm (payload : String) : String :=
         if !specified a c.2 sv then "ok"              -- outside the domain the reference defines
         else
           let r := Spec.Terminfo5.tparm a c.2 sv
-          if hex r.1 == o then go (k + 1) cr or r.2
-          else s!"{classOf c.1 c.2 sv r.1} call={k} want={hex r.1} got={o}"
+          let ms := (variants.zip svs).map fun p => (p.1.1, tparmV p.1.2 c.1 c.2 p.2)
+          if hex r.1 == o then go (k + 1) cr or r.2 (ms.map (·.2.2))
+          else
+            let cls :=
+              match ms with
+              | (_, pin) :: rest =>
+                if hex pin.1 != o then "mismatch"
+                else match rest.find? (fun (m : String × Bytes × Vars) => m.2.1 == r.1) with
+                  | some m => m.1
+                  | none => "mismatch"
+              | [] => "mismatch"
+            s!"{cls} call={k} want={hex r.1} got={o}"
     | _, _ => "ok"
-  go 0 calls outs noVars
+  go 0 calls outs noVars (variants.map fun _ => noVars)
 
 open Spec.TermCaps in
 def judgeTputs (payload : String) : String :=
@@ -108,7 +120,9 @@ def judgeTputs (payload : String) : String :=
     let rec nonSpec : Bytes → Bool
       | [] => false
       | b :: r => (b == 36 && r.head? == some 60 && r.contains 62 && (matchPad (b :: r)).isNone) || nonSpec r
-    (if nonSpec s then "strip-nonpadding" else "mismatch") ++ s!" want={hex want} got={obs}"
+    -- the known defect: the implementation behaves exactly like the pinned model on a string with a non-padding `$<…>`
+    (if nonSpec s && hex (TPuts.tputsV false [] s).bytes == obs.trimAscii.toString then "strip-nonpadding" else "mismatch")
+      ++ s!" want={hex want} got={obs}"
 
 open Spec.TermCaps in
 def judgeTgoto (env : Env) (payload : String) : String :=
